@@ -487,14 +487,15 @@ def run(rep, tier, only=None):
             for pos in (("field", "generic-first-arg", "enum-tuple", "alias") if tier == "thorough" else ("field", "enum-tuple")):
                 pcases.append((lang, form, pos, "module"))
     shapes = [("ws", "<crate>", "src", "lib.rs"), ("<crate>", "src", "a", "b", "m.rs"), ("ws", "crates", "<crate>", "src", "x", "m.rs"), ("<crate>", "lib.rs"),
-              ("src", "lib.rs"), ("ws", "<crate>", "tests", "t.rs"), ("my-ws", "<crate>", "src", "m.rs"), ("/", "<crate>", "src", "bin", "main.rs")]
+              ("src", "lib.rs"), ("ws", "<crate>", "tests", "t.rs"), ("my-ws", "<crate>", "src", "m.rs"), ("/", "<crate>", "src", "bin", "main.rs"),
+              ("home", "src", "ws", "<crate>", "src", "lib.rs"), ("/", "usr", "local", "src", "<crate>", "src", "a", "m.rs"), ("<crate>", "src", "inner-x", "src", "y.rs")]
     ccases = [(s, n) for s in shapes for n in ((1, 2, 3) if tier == "quick" else (1, 2, 3, 4, 5))]
     fcases = [(l, n) for l in LANGS for n in ((1, 2, 3) if tier == "quick" else (1, 2, 3, 4))]
     rep.bounds = {"imports": "workspaces of 2-3 crates (user a, providers b / c / d-e); use forms %s; reference positions %s; user file at src/lib.rs, src/models/m.rs or src/x/y/z/m.rs; the foreign type's name is F + a symbolic char [a-z0-9]; TypeScript and Kotlin" % (forms, poss),
                   "partition": "the same workspaces with concrete names, six languages, folder mode vs single-file mode",
                   "find_crate_name": "path shapes %s with the crate directory's name symbolic over [a-z0-9_-], length 1..%d" % (shapes, 3 if tier == "quick" else 5),
                   "output_file_name": "crate names symbolic over [a-z_] (first char a letter), length 1..%d, six languages" % (3 if tier == "quick" else 4)}
-    rep.outside = ["`use ... as ...` renames (the property's quantifier does not list them)", "crate directories nested below another `src` directory", "5-crate workspaces (2-3 crates are executed)",
+    rep.outside = ["`use ... as ...` renames (the property's quantifier does not list them)", "5-crate workspaces (2-3 crates are executed)",
                    "Swift/Scala/Go/Python emit no imports: partition and file names only"]
     rep.assumptions = ["source files are parsed by the real syn (astdump) and the AST is handed to the visitor; the walker/collector deliver per-file results in path order"]
     groups = [("imports", "case_imports", icases), ("partition", "case_partition", pcases), ("find_crate_name", "case_crate_name", ccases), ("output_file_name", "case_file_name", fcases)]
